@@ -486,6 +486,12 @@ def _describe_named(body, op, depth=0):
             if len(hit) == 1 and rest and all((d[2] == "call" and d[3].get("always_break")) or (d[2] == "assign" and d[3].get("k") == "agg" and d[3].get("vname") in ("Break", "Err", "None")) for d in rest):
                 base = _describe_named(body, hit[0][3]["ops"][0], depth + 1)
                 proj = proj[2:]
+        # `.i` of a tuple built in one place (the `(&a, &b)` of assert_eq!, a tuple-valued `if`): its i-th operand
+        if base is None and not nm and proj and isinstance(proj[0], dict) and "f" in proj[0] and "n" not in proj[0]:
+            d1 = body.single_def(l)
+            if d1 and d1[2] == "assign" and d1[3].get("k") == "agg" and d1[3].get("ak") == "tuple" and proj[0]["f"] < len(d1[3]["ops"]):
+                base = _describe_named(body, d1[3]["ops"][proj[0]["f"]], depth + 1)
+                proj = proj[1:]
         if base is None:
             base = "var(%s)" % nm if nm else _describe_named(body, {"l": l, "p": []}, depth + 1)
         for e in proj:
